@@ -31,7 +31,7 @@ func cases(tier string) int {
 	if tier == "thorough" {
 		return 100000
 	}
-	return 4000
+	return 12000
 }
 
 func TestCheck(t *testing.T) {
